@@ -389,6 +389,50 @@ class World(object):
             return it.run_function(fn.node, fn.module, args, kwargs, func=fn)
         return c.apply(it, fn, args, kwargs)
 
+    def call_inductive(self, it, fn, args, kwargs):
+        """ application of an @inductive spec function (recursion on the first, integer, parameter).  Concrete first argument:
+            the definition is executed.  Symbolic: the uninterpreted application F(k, args) plus, as an axiom, the defining
+            equation unfolded once at this k (recursive calls inside the unfolding stay applications). """
+        if kwargs:
+            raise OutOfReach('keyword arguments to an inductive spec function')
+        k = args[0]
+        if is_plain_index(k):
+            return it.run_function(fn.node, fn.module, args, {}, func=fn)
+        ks = as_sym(k)
+        if it.ctx.narrow(ks) not in (INT, BOOL):
+            raise OutOfReach('inductive spec function applied to a non-integer')
+        kt = int_term(it.ctx, ks)
+        try:
+            ts = [to_val(v) for v in args[1:]]
+        except Unliftable as u:
+            raise OutOfReach('inductive spec function %s: %s' % (fn.qualname, u))
+        F = z3.Function('ind_' + fn.qualname.replace('.', '_'), *([z3.IntSort()] + [Val] * len(ts) + [Val]))
+        app = F(kt, *ts)
+        it.ctx.flags.add('spec:inductive %s (unfolded once per application)' % fn.qualname)
+        if getattr(self, 'ind_depth', 0) == 0:
+            key = ('ind', app.sexpr())
+            done = getattr(it.ctx, 'ind_done', None)
+            if done is None:
+                done = it.ctx.ind_done = set()
+            if key not in done:
+                done.add(key)
+
+                def body(it2):
+                    return it2.run_function(fn.node, fn.module, [ks] + list(args[1:]), {}, func=fn)
+                self.ind_depth = 1
+                try:
+                    b = merge_value(it, body)
+                finally:
+                    self.ind_depth = 0
+                it.ctx.axiom(app == b)
+                kinds = term_kinds(b)
+                if kinds != ALL_KINDS:
+                    it.ctx.axiom(is_kind(app, *sorted(kinds)))
+        # a number; or None ("nothing yet") when the definition has a `return None`
+        opt = any(isinstance(n, ast.Return) and (n.value is None or (isinstance(n.value, ast.Constant) and n.value.value is None))
+                  for n in ast.walk(fn.node))
+        return Sym(app, (NONE, INT, FLOAT) if opt else (INT, FLOAT))
+
     def instantiate(self, it, cls, args, kwargs):
         init = cls.find_method('__init__')
         o = Obj(cls, {})
